@@ -39,23 +39,23 @@ type Obligation struct {
 }
 
 type FuncCtx struct {
-	p         *Program
-	top       *ssa.Function
-	contract  *Contract
-	obls      []*Obligation
-	axioms    []*Term
-	notes     map[string]bool
-	counters  map[string]int
-	entry     *State
-	entryVars map[string]SVal
-	frameLocs []ModLoc
-	stack     []*ssa.Function
-	wrap      bool
-	inlined   map[string]bool
+	p                *Program
+	top              *ssa.Function
+	contract         *Contract
+	obls             []*Obligation
+	axioms           []*Term
+	notes            map[string]bool
+	counters         map[string]int
+	entry            *State
+	entryVars        map[string]SVal
+	frameLocs        []ModLoc
+	stack            []*ssa.Function
+	wrap             bool
+	inlined          map[string]bool
 	inlinedWithLoops map[string]bool
-	callCount map[string]int
-	assertSeen map[string]bool
-	curTags   []string
+	callCount        map[string]int
+	assertSeen       map[string]bool
+	curTags          []string
 }
 
 type ModLoc struct {
@@ -79,17 +79,17 @@ type loopInfo struct {
 }
 
 type Frame struct {
-	fc      *FuncCtx
-	fn      *ssa.Function
-	regs    map[ssa.Value]Val
-	prefix  string
-	isTop   bool
-	loops   map[*ssa.BasicBlock]*loopInfo
+	fc       *FuncCtx
+	fn       *ssa.Function
+	regs     map[ssa.Value]Val
+	prefix   string
+	isTop    bool
+	loops    map[*ssa.BasicBlock]*loopInfo
 	contract *Contract
-	entrySt *State
-	params  map[string]SVal // entry values of params by name
-	depth   int
-	defers  []*ssa.Defer
+	entrySt  *State
+	params   map[string]SVal // entry values of params by name
+	depth    int
+	defers   []*ssa.Defer
 	goBodies []*ssa.Function
 	onReturn func(st *State, vals []Val)
 }
@@ -1232,7 +1232,9 @@ func (fc *FuncCtx) enterLoop(fr *Frame, li *loopInfo, st *State) *State {
 	for c := range cells {
 		cellList = append(cellList, c)
 	}
-	sort.Slice(cellList, func(i, j int) bool { return cellList[i].Pos() < cellList[j].Pos() || (cellList[i].Pos() == cellList[j].Pos() && cellList[i].Name() < cellList[j].Name()) })
+	sort.Slice(cellList, func(i, j int) bool {
+		return cellList[i].Pos() < cellList[j].Pos() || (cellList[i].Pos() == cellList[j].Pos() && cellList[i].Name() < cellList[j].Name())
+	})
 	if mi.allocs {
 		na := Fresh(fmt.Sprintf("alloc.%s", loopName), SInt)
 		h.assume(Le(st.alloc, na))
